@@ -162,6 +162,10 @@ def ops : List (String × (List String → String)) := [
     | some (g, ni, sc) => match granOfNat g with
       | none => "bad-op"
       | some gr => "ok " ++ Wr.render (Wr.opt wrAggFlags (aggFlags gr ni sc))),
+  ("graph.tag", fun ts =>
+    match Rd.run (do let r ← Rd.list Rd.str; let l ← Rd.list Rd.str; let p ← Rd.profile; pure (r, l, p)) ts with
+    | none => "bad-op"
+    | some (r, l, p) => "ok " ++ Wr.render (Wr.profile (addLabelNodes p r l))),
   ("graph.sampleindex", fun ts =>
     match Rd.run (do let s ← Rd.str; let p ← Rd.profile; pure (s, p)) ts with
     | none => "bad-op"
